@@ -122,8 +122,9 @@ def special(name, leaves, prefix, idx=None):
         y, m, d = (int(x) for x in date.split())
         return (datetime.datetime(y, m, d) + datetime.timedelta(seconds=sec)).isoformat()
     if name == "attitude_time_code":
-        # what the code does today (known finding C17): 1 Jan of the platform-position year + day_of_year DAYS + ms
-        year = int(leaves[prefix + "platform_position.datetime_of_first_point.date"].val.split()[0])
+        # what the code does today (known finding C17): 1 Jan of the platform-position year + day_of_year DAYS + ms;
+        # the platform-position year is that of the first-point instant (date + seconds of day: a leap-second stamp on 31 December carries)
+        year = int(special("first_point", leaves, prefix + "platform_position.")[:4])
         doy = leaves[prefix + f"attitude.data_points[{idx}].time.day_of_year"].val
         ms = leaves[prefix + f"attitude.data_points[{idx}].time.millisecond_of_day"].val
         return np.datetime64(synth.instant_ns(year, doy + 1, ms * 10**6), "ns")
